@@ -18,6 +18,11 @@ def main():
     tests = "--tests" in args
     keep = "--keep" in args
     args = [a for a in args if a not in ("--tests", "--keep")]
+    tier = "quick"
+    if "--tier" in args:
+        i = args.index("--tier")
+        tier = args[i + 1]
+        del args[i:i + 2]
     seed = "1"
     if "--seed" in args:
         i = args.index("--seed")
@@ -61,7 +66,7 @@ def main():
             print("TESTS rc=%d %s (%.0fs)" % (p.returncode, " | ".join(tail), time.time() - t0))
         for c in checks:
             t0 = time.time()
-            p = subprocess.run([os.path.join(VERIF, "vcheck"), "run", c], env=env, stdout=subprocess.PIPE, stderr=subprocess.STDOUT, text=True)
+            p = subprocess.run([os.path.join(VERIF, "vcheck"), "run", c, "--tier", tier], env=env, stdout=subprocess.PIPE, stderr=subprocess.STDOUT, text=True)
             lines = p.stdout.split("\n")
             keys = [l.strip() for l in lines if l.strip().startswith("key:")]
             summ = [l for l in lines if l.startswith(c.upper() + " tier")]
